@@ -6,16 +6,24 @@ Encoder ops (no output): `u N`, `n N`, `f HEX16`, `text HEX`, `bytes HEX`,
 `textr BB COUNT`, `bytesr BB COUNT`, `arr N`, `map N`, `tag N`, `bool 0|1`, `null`, `undef`,
 `indef_bytes`, `indef_text`, `indef_arr`, `indef_map`, `brk`, `reset`.
 `enc` prints the encoded bytes (`W enc`) and the buffer capacity (`W cap`).
+`bigmode` (first op of a case): multi-MiB encoders; `enc` prints `W encsum len=… fnv=…` instead of the bytes, no decoder ops.
 Decoder: `load` (decoder over the encoder's output; result lines are `P`), `dec HEX` / `dec NULL` (decoder over
 raw bytes; every line is `W`), `decode_all` (= `load` + `all`), `all`, `peek`, `pop KIND`,
 `consume`, `skip`, `rem`.  Errors are always `W` lines. -/
 namespace Driver.CborD
 open AwsVerif.Cbor Driver
 
+/-- digest of an encoder too large to keep as a byte list (`bigmode`): length, running FNV-1a, capacity -/
+structure Big where
+  len : Nat := 0
+  fnv : UInt64 := 0xcbf29ce484222325
+  cap : Nat := 256
+
 structure St where
   enc : Encoder := {}
   dec : Option Decoder := none
   raw : Bool := false
+  big : Option Big := none
 
 def hexN (width n : Nat) : String :=
   String.ofList ((List.range width).reverse.map (fun i => hexDigit (n / 16^i % 16)))
@@ -137,7 +145,46 @@ def decStep (raw : Bool) (d : Decoder) (t : List String) : Option (Decoder × Li
   | ["rem"] => some (d, [s!"{cls raw} rem={d.src.length}"])
   | _ => none
 
+def fnvStep (h : UInt64) (b : UInt8) : UInt64 := (h ^^^ b.toUInt64) * 0x100000001b3
+
+def fnvRep (b : UInt8) : Nat → UInt64 → UInt64
+  | 0, h => h
+  | n + 1, h => fnvRep b n (fnvStep h b)
+
+/-- `bigmode`: the same encoder model (`encItem` / `encUint` heads, `reserveSmart`, `reserveLen`), folded into the digest;
+a repeated-byte string is streamed instead of materialised.  Decoder ops are not available. -/
+def bigStep (g : Big) (t : List String) : Option (Big × List String) :=
+  let strOp (text : Bool) (b c : String) : Option (Big × List String) :=
+    match parseHexNat? b, c.toNat? with
+    | some b, some c =>
+      if b < 256 then
+        let head := encUint c (if text then 0x60 else 0x40)
+        let h := fnvRep (UInt8.ofNat b) c (head.foldl fnvStep g.fnv)
+        some ({ len := g.len + head.length + c, fnv := h, cap := reserveSmart g.cap g.len (9 + c) }, [])
+      else none
+    | _, _ => none
+  match t with
+  | ["textr", b, c] => strOp true b c
+  | ["bytesr", b, c] => strOp false b c
+  | ["reset"] => some ({ g with len := 0, fnv := 0xcbf29ce484222325 }, [])
+  | ["enc"] => some (g, [s!"W encsum len={g.len} fnv={hexN 16 g.fnv.toNat}", s!"W cap {g.cap}"])
+  | _ =>
+    match itemOf? t with
+    | some it =>
+      let bs := encItem it
+      some ({ len := g.len + bs.length, fnv := bs.foldl fnvStep g.fnv, cap := reserveSmart g.cap g.len (reserveLen it) }, [])
+    | none => none
+
 def step (s : St) (t : List String) : St × List String :=
+  match s.big with
+  | some g =>
+    (match bigStep g t with
+     | some (g', ls) => ({ s with big := some g' }, ls)
+     | none => (s, ["bad-op"]))
+  | none =>
+  if t == ["bigmode"] then
+    (if s.enc.buf.isEmpty ∧ s.dec.isNone then ({ s with big := some { cap := s.enc.cap } }, []) else (s, ["bad-op"]))
+  else
   match itemOf? t with
   | some it => ({ s with enc := s.enc.write it }, [])
   | none =>
